@@ -197,6 +197,8 @@ type Oblig struct {
 }
 
 type Exec struct {
+	famMembers  map[*ssa.Function][]famMember
+	keyOverride string
 	ld          *Loaded
 	cs          *Contracts
 	leafCache   map[string][]leaf
@@ -339,6 +341,20 @@ func funcKey(f *ssa.Function) string {
 		return funcKey(f.Parent()) + "$" + f.Name()
 	}
 	return pkg + "." + f.Name()
+}
+
+// fnPkg: the types package a function belongs to (synthetic wrappers have no ssa package)
+func fnPkg(f *ssa.Function) *types.Package {
+	if f.Pkg != nil {
+		return f.Pkg.Pkg
+	}
+	if f.Object() != nil {
+		return f.Object().Pkg()
+	}
+	if f.Parent() != nil {
+		return fnPkg(f.Parent())
+	}
+	return nil
 }
 
 func inModule(f *ssa.Function) bool {
@@ -602,7 +618,7 @@ func (x *Exec) emitCover(st *State, name string) {
 	if st.dead {
 		return
 	}
-	q := &Query{Name: name, Facts: append([]*T(nil), st.facts...), Cover: true, Axioms: x.autoAxioms}
+	q := &Query{Name: name, Facts: coverFacts(st.facts, st.instTerms), Cover: true, Axioms: x.autoAxioms}
 	x.obligs = append(x.obligs, &Oblig{Name: name, Func: x.topKey, Kind: "cover", Query: q, Cover: true})
 }
 
@@ -790,6 +806,9 @@ func (x *Exec) Verify(f *ssa.Function, c *FuncContract) {
 	x.top = f
 	x.topC = c
 	x.topKey = funcKey(f)
+	if x.keyOverride != "" {
+		x.topKey = x.keyOverride
+	}
 	x.analyzeLoops(f)
 	x.pathCount = 0
 	x.retCount = 0
@@ -829,7 +848,7 @@ func (x *Exec) Verify(f *ssa.Function, c *FuncContract) {
 		params["free_"+fv.Name()] = v
 		ptypes["free_"+fv.Name()] = fv.Type()
 	}
-	x.preEnv = &Env{x: x, st: pre, vars: params, types: ptypes, pkg: f.Pkg.Pkg, isPre: true, facts: st}
+	x.preEnv = &Env{x: x, st: pre, vars: params, types: ptypes, pkg: fnPkg(f), isPre: true, facts: st}
 	// program-wide invariants of package-level variables (established by package
 	// initialisation, preserved because no verified frame allows writing them)
 	if f.Name() != "init" {
@@ -1439,6 +1458,15 @@ func (x *Exec) envFor(st *State, fr *Frame) *Env {
 			}
 		}
 	}
+	// parameters that were never spilled to a named cell (synthetic wrappers)
+	for _, p := range fr.fn.Params {
+		if _, ok := vars[p.Name()]; !ok && p.Name() != "" {
+			if v, ok := fr.regs[p]; ok {
+				vars[p.Name()] = v
+				tys[p.Name()] = p.Type()
+			}
+		}
+	}
 	if fr.fn == x.top && x.preEnv != nil {
 		if tv, ok := x.preEnv.vars["this"]; ok {
 			vars["this"] = tv
@@ -1451,7 +1479,7 @@ func (x *Exec) envFor(st *State, fr *Frame) *Env {
 			}
 		}
 	}
-	return &Env{x: x, st: st, vars: vars, types: tys, pkg: fr.fn.Pkg.Pkg, old: x.preEnv, facts: st, heads: fr.heads}
+	return &Env{x: x, st: st, vars: vars, types: tys, pkg: fnPkg(fr.fn), old: x.preEnv, facts: st, heads: fr.heads}
 }
 
 // ---- frame checking ----
@@ -1697,4 +1725,33 @@ func sortedAllocs(m map[*ssa.Alloc]bool) []*ssa.Alloc {
 	}
 	sort.Slice(as, func(i, j int) bool { return allocOrder(as[i]) < allocOrder(as[j]) })
 	return as
+}
+
+// coverFacts weakens the path facts to their quantifier-free part for the vacuity check:
+// quantified facts are replaced by their instances at the path's index terms and every
+// conjunct that still contains a quantifier is dropped. Dropping assumptions can only make
+// the set easier to satisfy, so an unsat answer still shows a contradiction; the solver
+// then answers sat instead of running into its limit on nested quantifiers.
+func coverFacts(facts []*T, terms []*T) []*T {
+	var out []*T
+	var add func(t *T)
+	add = func(t *T) {
+		if t.Op == "app" && t.Name == "and" {
+			for _, a := range t.Args {
+				add(a)
+			}
+			return
+		}
+		if containsForall(t) {
+			return
+		}
+		out = append(out, t)
+	}
+	for _, f := range facts {
+		if containsForall(f) && len(terms) > 0 {
+			f = instRewrite(f, terms)
+		}
+		add(f)
+	}
+	return out
 }
